@@ -26,7 +26,7 @@ func weights() map[string]int {
 	w["restore"] = 3
 	w["churn"] = 6
 	w["mint"] = 5
-	w["rotate"] = 1
+	w["rotate"] = 3
 	return w
 }
 
